@@ -455,3 +455,69 @@ func init() {
 		rule: "7 scenarios sharing an idempotency key (same create; same spend with funds for only one; same revert; same delete-metadata; three same account-metadata writes; different inputs; a key already used then repeated and reused concurrently); every schedule with <= bound preemptions (thorough: all), the unique index logs(ledger, idempotency_key) and forgeLog's retry deciding the outcome; oracle: at most one request applied per key, every other caller gets the original log flagged as a hit or an explicit conflict/retryable error, never a business error contradicting the committed outcome; a different input never succeeds; final state == replay of the applied requests",
 	}, reg.Register)
 }
+
+// ---------- concurrent halves of C15 and C08 ----------
+
+func c15Conc() ([]*sched.Scenario, error) {
+	one := []lx.LedgerSpec{{Name: "l1"}}
+	seed := post("seed", p("world", "z", "USD", "1"))
+	fund := post("fund-a", p("world", "a", "USD", "100"))
+	return mkScenarios(one, revertOnceOracle,
+		scenarioDef{name: "two-reverts-of-one-transaction", prefix: []lx.Op{seed, fund}, threads: [][]lx.Op{
+			{{Kind: "revert", Name: "revert2", TxID: 2}}, {{Kind: "revert", Name: "revert2-force", TxID: 2, Force: true}}}},
+		scenarioDef{name: "three-reverts-mixed-options", prefix: []lx.Op{seed, fund}, threads: [][]lx.Op{
+			{{Kind: "revert", Name: "revert2", TxID: 2}}, {{Kind: "revert", Name: "revert2-eff", TxID: 2, AtEff: true}}, {{Kind: "revert", Name: "revert2-force", TxID: 2, Force: true}}}},
+		scenarioDef{name: "revert-vs-revert-of-another", prefix: []lx.Op{seed, fund}, threads: [][]lx.Op{
+			{{Kind: "revert", Name: "revert2", TxID: 2}}, {{Kind: "revert", Name: "revert1", TxID: 1, Force: true}}}},
+	)()
+}
+
+// journalOrderOracle: along commit order log ids strictly increase (C08), one log per
+// committed write, final state == replay.
+func journalOrderOracle(ctx context.Context, w *world.World, st *concState, run *sched.Run) [][2]string {
+	var out [][2]string
+	last := map[string]uint64{}
+	for name, ref := range st.Refs {
+		for _, l := range ref.Logs {
+			if l.ID > last[name] {
+				last[name] = l.ID
+			}
+		}
+	}
+	for _, r := range committedInOrder(st) {
+		name := ledgerOfOp(r.Op)
+		if r.Out.Log == nil || r.Out.Log.ID == nil {
+			out = append(out, [2]string{"journal:no-log", fmt.Sprintf("T%d %s succeeded without a log", r.Thread, r.Op)})
+			continue
+		}
+		id := *r.Out.Log.ID
+		if id <= last[name] {
+			tag := "hash-logs-not-sync"
+			if c, err := w.Sys.GetLedgerController(ctx, name); err == nil && c.Info().Features["HASH_LOGS"] == "SYNC" {
+				tag = "hash-logs-sync"
+			}
+			out = append(out, [2]string{"journal:commit-order:" + tag, fmt.Sprintf("%s: T%d %s committed at position %d with log id %d, log id %d was committed before", name, r.Thread, r.Op, r.CommitPos, id, last[name])})
+		} else {
+			last[name] = id
+		}
+	}
+	return append(out, finalState(ctx, w, st, func(s string) bool { return strings.HasPrefix(s, "log:count") || strings.HasPrefix(s, "tx:count") })...)
+}
+
+func c08Conc() ([]*sched.Scenario, error) {
+	one := []lx.LedgerSpec{{Name: "l1"}}
+	seed := post("seed", p("world", "z", "USD", "1"))
+	fa, fb := post("fund-a", p("world", "a", "USD", "5")), post("fund-b", p("world", "b", "USD", "5"))
+	return mkScenarios(one, journalOrderOracle,
+		scenarioDef{name: "two-disjoint-creates", prefix: []lx.Op{seed, fa, fb}, threads: [][]lx.Op{
+			{post("a>c", p("a", "c", "USD", "1"))}, {post("b>d", p("b", "d", "USD", "1"))}}},
+		scenarioDef{name: "mixed-kinds-three-writers", prefix: []lx.Op{seed, fa, fb}, threads: [][]lx.Op{
+			{post("a>c", p("a", "c", "USD", "1"))},
+			{{Kind: "accmeta", Name: "accmeta-q", Address: "q", Meta: map[string]string{"k": "v"}}},
+			{{Kind: "txmeta", Name: "txmeta1", TxID: 1, Meta: map[string]string{"k": "v"}}, {Kind: "post", Name: "dry", Postings: []lx.P{p("world", "e", "USD", "1")}, DryRun: true}}}},
+		scenarioDef{name: "writer-vs-failing-writer", prefix: []lx.Op{seed, fa}, threads: [][]lx.Op{
+			{post("a>c", p("a", "c", "USD", "1"))}, {post("overdraw", p("nobody", "c", "USD", "1"))}, {post("a>d", p("a", "d", "USD", "1"))}}},
+		scenarioDef{name: "hash-logs-disabled-two-writers", ledgers: []lx.LedgerSpec{{Name: "l1", Features: map[string]string{"HASH_LOGS": "DISABLED"}}}, prefix: []lx.Op{seed, fa, fb}, threads: [][]lx.Op{
+			{post("a>c", p("a", "c", "USD", "1"))}, {post("b>d", p("b", "d", "USD", "1"))}}},
+	)()
+}
